@@ -306,7 +306,6 @@ def c15(tier):
         run_s2c(rep, "MC_SMT", smt_cfg(keys="K8", ops=12, trunc="T8", emit="INVARIANT EmitSt"), R,
                 simulate=dict(num=96, depth=12))
         run_s2c(rep, "MC_SMT", smt_cfg(depth=64, keys="K64", ops=2, trunc="T64few", defaults="DBlank"), R)
-        run_s2c(rep, "MC_SMT", smt_cfg(depth=256, keys="K256", ops=1, trunc="T256few", defaults="DBlank"), R)
     else:
         run_s2c(rep, "MC_SMT", smt_cfg(depth=64, keys="K64", ops=3, trunc="T64few"), R)
         run_s2c(rep, "MC_SMT", smt_cfg(depth=256, keys="K256", ops=3, trunc="T256few"), R)
